@@ -57,7 +57,7 @@ end
 
 /-- a state that counts as final and has just been entered (with everything below it) fires -/
 theorem fires_of_entered (D : Defs) (E : List Nat) :
-    ∀ t, downClosed E t = true → fin D t = true → entered E t.id = true → fires D E t = true
+    ∀ t, downClosed E t = true → fin D t = true → inE E t.id = true → fires D E t = true
   | .node s kids, hd, hf, he => by
     simp only [Tree.id] at he
     cases kids with
@@ -71,7 +71,7 @@ theorem fires_of_entered (D : Defs) (E : List Nat) :
 
 mutual
 theorem firing_ne_of_entered_below (D : Defs) (E : List Nat) :
-    ∀ t, downClosed E t = true → fin D t = true → (∃ e, entered E e = true ∧ e ∈ ids t) → firing D E t ≠ []
+    ∀ t, downClosed E t = true → fin D t = true → (∃ e, inE E e = true ∧ e ∈ ids t) → firing D E t ≠ []
   | .node s kids, hd, hf, ⟨e, he, hm⟩ => by
     simp only [ids, List.mem_cons] at hm
     rcases hm with rfl | hm
@@ -85,7 +85,7 @@ theorem firing_ne_of_entered_below (D : Defs) (E : List Nat) :
         simp only [firing, ne_eq, List.append_eq_nil_iff, not_and]
         intro h1; exact absurd h1 this
 theorem firingL_ne_of_entered_below (D : Defs) (E : List Nat) :
-    ∀ ts, downClosedL E ts = true → finAll D ts = true → (∃ e, entered E e = true ∧ e ∈ idsL ts) → firingL D E ts ≠ []
+    ∀ ts, downClosedL E ts = true → finAll D ts = true → (∃ e, inE E e = true ∧ e ∈ idsL ts) → firingL D E ts ≠ []
   | [], _, _, ⟨e, _, hm⟩ => by simp [idsL] at hm
   | t :: ts, hd, hf, ⟨e, he, hm⟩ => by
     simp only [downClosedL, Bool.and_eq_true] at hd
@@ -102,30 +102,32 @@ end
 mutual
 /-- `_final_check` on a subtree = (states that fire, children first; counts as final) -/
 theorem finalCheck_spec (D : Defs) (E : List Nat) :
-    ∀ t, downClosed E t = true → finalCheck D E t = (firing D E t, fin D t)
-  | .node s kids, hD => by
+    ∀ t, (∀ i ∈ ids t, entered D E i = inE E i) → downClosed E t = true →
+      finalCheck D E t = (firing D E t, fin D t)
+  | .node s kids, hO, hD => by
     have hDk : downClosedL E kids = true := by
       simp only [downClosed, Bool.and_eq_true] at hD; exact hD.2
-    have hloop := finalLoop_spec D E kids hDk [] true
-    simp only [finalCheck, hloop, List.nil_append, Bool.true_and]
+    have hs : entered D E s = inE E s := hO s (by simp [ids])
+    have hloop := finalLoop_spec D E kids (fun i hi => hO i (by simp [ids, hi])) hDk [] true
+    simp only [finalCheck, hloop, List.nil_append, Bool.true_and, hs]
     cases kids with
     | nil =>
-      cases hfin : D.final s <;> cases hE : entered E s <;> simp [firing, firingL, fires, fin, hfin, hE, firesAny]
+      cases hfin : D.final s <;> cases hE : inE E s <;> simp [firing, firingL, fires, fin, hfin, hE, firesAny]
     | cons k ks =>
       simp only [List.isEmpty_cons, Bool.false_eq_true, if_false]
       cases hfa : finAll D (k :: ks)
       · -- not all children count as final
         simp only [Bool.false_eq_true, if_false]
         have hfin : fin D (.node s (k :: ks)) = false := by simp [fin, hfa]
-        have hfires : fires D E (.node s (k :: ks)) = (D.final s && entered E s) := by
+        have hfires : fires D E (.node s (k :: ks)) = (D.final s && inE E s) := by
           simp [fires, hfa]
         rw [hfin]
         simp only [firing, hfires]
-        cases D.final s && entered E s <;> simp
+        cases D.final s && inE E s <;> simp
       · -- all children count as final
         simp only [if_true]
         have hfin : fin D (.node s (k :: ks)) = true := by simp [fin, hfa]
-        have hiff : (!(firingL D E (k :: ks)).isEmpty || entered E s) = fires D E (.node s (k :: ks)) := by
+        have hiff : (!(firingL D E (k :: ks)).isEmpty || inE E s) = fires D E (.node s (k :: ks)) := by
           cases hfi : fires D E (.node s (k :: ks))
           · -- nothing may fire below, and s was not entered
             have h1 : firesAny D E (k :: ks) = false := by
@@ -137,8 +139,8 @@ theorem finalCheck_spec (D : Defs) (E : List Nat) :
               · exact hne
               · have := firesAny_of_finAll_firingL D E (k :: ks) hfa hne
                 simp [h1] at this
-            have h3 : entered E s = false := by
-              cases hx : entered E s
+            have h3 : inE E s = false := by
+              cases hx : inE E s
               · rfl
               · have := fires_of_entered D E (.node s (k :: ks)) hD hfin (by simpa [Tree.id] using hx)
                 simp [hfi] at this
@@ -157,21 +159,38 @@ theorem finalCheck_spec (D : Defs) (E : List Nat) :
         simp only [firing]
         cases fires D E (.node s (k :: ks)) <;> simp
 theorem finalLoop_spec (D : Defs) (E : List Nat) :
-    ∀ ts, downClosedL E ts = true → ∀ cbs all,
+    ∀ ts, (∀ i ∈ idsL ts, entered D E i = inE E i) → downClosedL E ts = true → ∀ cbs all,
       finalLoop D E ts cbs all = (cbs ++ firingL D E ts, all && finAll D ts)
-  | [], _, cbs, all => by simp [finalLoop, firingL, finAll]
-  | t :: ts, hD, cbs, all => by
+  | [], _, _, cbs, all => by simp [finalLoop, firingL, finAll]
+  | t :: ts, hO, hD, cbs, all => by
     simp only [downClosedL, Bool.and_eq_true] at hD
-    simp only [finalLoop, finalCheck_spec D E t hD.1, finalLoop_spec D E ts hD.2, firingL, finAll,
+    simp only [finalLoop, finalCheck_spec D E t (fun i hi => hO i (by simp [idsL, hi])) hD.1,
+      finalLoop_spec D E ts (fun i hi => hO i (by simp [idsL, hi])) hD.2, firingL, finAll,
       List.append_assoc, Bool.and_assoc]
 end
 
 /-- the root call: never the AttributeError, and exactly the expected owners -/
+theorem entered_eq_of_noShared (D : Defs) (E : List Nat) (roots : List Tree) (h : noShared D E roots = true) :
+    ∀ i ∈ idsL roots, entered D E i = inE E i := by
+  intro i hi
+  simp only [noShared, List.all_eq_true] at h
+  rw [Bool.eq_iff_iff]
+  simp only [entered, inE, List.any_eq_true, List.contains_iff_mem, beq_iff_eq]
+  constructor
+  · rintro ⟨e, he, ho⟩
+    have := h e he i hi
+    simp only [Bool.or_eq_true, bne_iff_ne, ne_eq, beq_iff_eq] at this
+    rcases this with h1 | h1
+    · exact absurd ho h1
+    · exact h1 ▸ he
+  · intro h1
+    exact ⟨i, h1, rfl⟩
+
 theorem finalCheckRoot_spec (D : Defs) (E : List Nat) (roots : List Tree)
-    (hW : enteredWF E roots = true) :
+    (hW : enteredWF E roots = true) (hS : noShared D E roots = true) :
     finalCheckRoot D E roots = .ok (expected D E roots) := by
   simp only [enteredWF, Bool.and_eq_true] at hW
-  have hloop := finalLoop_spec D E roots hW.1 [] true
+  have hloop := finalLoop_spec D E roots (entered_eq_of_noShared D E roots hS) hW.1 [] true
   simp only [finalCheckRoot, hloop, List.nil_append, Bool.true_and, expected, machineFires]
   cases roots with
   | nil => simp [firingL]
@@ -202,7 +221,7 @@ theorem finalCheckRoot_spec (D : Defs) (E : List Nat) (roots : List Tree)
           rw [List.all_eq_true] at hsub
           have hin := hsub e he
           exact firingL_ne_of_entered_below D E (r :: rs) hW.1 hfa
-            ⟨e, by simp [entered, he], by simpa using hin⟩ hx
+            ⟨e, by simp [inE, he], by simpa using hin⟩ hx
 
 end Final
 end TM
